@@ -62,8 +62,12 @@ Proof.
   - rewrite IH; [lia|]. intros; apply H; auto; right; auto.
 Qed.
 
+(* entries of pools (negative owner key = the pool's incentives address) and entries of lock owners *)
 Definition di_ok (tbl : list lock) (di : dinfo) : Prop :=
-  forall e, In e di -> forall l, In l tbl -> l_owner l = de_owner e -> receiver l = de_recv e.
+  forall e, In e di ->
+    (de_owner e < 0 /\ de_recv e = de_owner e) \/
+    (0 <= de_owner e /\ forall l, In l tbl -> l_owner l = de_owner e -> receiver l = de_recv e).
+Definition owners_nonneg (tbl : list lock) : Prop := Forall (fun l => 0 <= l_owner l) tbl.
 (* the hypothesis that excludes finding C09-F4 *)
 Definition consistent_receivers (tbl : list lock) : Prop :=
   forall l1 l2, In l1 tbl -> In l2 tbl -> l_owner l1 = l_owner l2 -> receiver l1 = receiver l2.
@@ -82,13 +86,21 @@ Proof.
       * right. exists x. split; [right; auto|auto].
 Qed.
 
-Lemma add_lock_rewards_ok : forall tbl di l c, consistent_receivers tbl -> In l tbl -> di_ok tbl di ->
+Lemma add_lock_rewards_ok : forall tbl di l c, consistent_receivers tbl -> owners_nonneg tbl -> In l tbl -> di_ok tbl di ->
   di_ok tbl (add_lock_rewards di (l_owner l) (receiver l) c).
 Proof.
-  intros tbl di l c Cs Hl Ok e He l2 Hl2 Eo.
+  intros tbl di l c Cs On Hl Ok e He. unfold owners_nonneg in On. rewrite Forall_forall in On.
   destruct (add_lock_rewards_in _ _ _ _ _ He) as [(A & B & _)|(e0 & H0 & A & B)].
-  - rewrite B. apply Cs; auto. congruence.
-  - rewrite B. apply (Ok e0 H0 l2 Hl2). congruence.
+  - right. rewrite A. split; [apply On; auto|]. intros l2 Hl2 Eo. rewrite B. apply Cs; auto.
+  - rewrite A, B. apply (Ok e0 H0).
+Qed.
+
+Lemma add_pool_rewards_ok : forall tbl di p c, p < 0 -> di_ok tbl di -> di_ok tbl (add_lock_rewards di p p c).
+Proof.
+  intros tbl di p c Hp Ok e He.
+  destruct (add_lock_rewards_in _ _ _ _ _ He) as [(A & B & _)|(e0 & H0 & A & B)].
+  - left. rewrite A, B. auto.
+  - rewrite A, B. apply (Ok e0 H0).
 Qed.
 
 Fixpoint lsum (cfg : config) (thr : Z -> tval) (den : Z) (remain : coins) (ls : list lock) (a d : Z) : Z :=
@@ -98,27 +110,29 @@ Fixpoint lsum (cfg : config) (thr : Z -> tval) (den : Z) (remain : coins) (ls : 
   end.
 
 Lemma locks_loop_recv : forall cfg thr tbl den remain ls di cache total di' cache' total',
-  thr_positive thr -> consistent_receivers tbl -> (forall l, In l ls -> In l tbl) ->
+  thr_positive thr -> consistent_receivers tbl -> owners_nonneg tbl -> (forall l, In l ls -> In l tbl) ->
   di_ok tbl di -> cache_ok thr cache ->
   locks_loop cfg thr den remain ls di cache total = Ok (di', cache', total') ->
   di_ok tbl di' /\ cache_ok thr cache' /\
   forall a d, di_recv_sum di' a d = di_recv_sum di a d + lsum cfg thr den remain ls a d.
 Proof.
-  induction ls as [|l r IH]; intros di cache total di' cache' total' Tp Cs Hin Ok Co H; cbn [locks_loop] in H.
+  induction ls as [|l r IH]; intros di cache total di' cache' total' Tp Cs On Hin Ok Co H; cbn [locks_loop] in H.
   - inversion H; subst. repeat split; auto. intros; cbn; lia.
   - destruct (lock_coins cfg thr den (l_amt l) remain cache []) as [[dc c1]|e] eqn:L; [|discriminate].
     destruct (lock_coins_exact _ _ _ _ _ _ _ _ _ Tp Co L) as [Co1 Ex].
     assert (Hin' : forall l0, In l0 r -> In l0 tbl) by (intros; apply Hin; right; auto).
     destruct (is_empty dc) eqn:E.
-    + destruct (IH _ _ _ _ _ _ Tp Cs Hin' Ok Co1 H) as (A & B & C). repeat split; auto.
+    + destruct (IH _ _ _ _ _ _ Tp Cs On Hin' Ok Co1 H) as (A & B & C). repeat split; auto.
       intros a d. rewrite C. cbn [lsum]. specialize (Ex d). destruct dc; [|discriminate]. cbn [amount_of] in Ex.
       destruct (receiver l =? a); lia.
     + assert (Ok1 : di_ok tbl (add_lock_rewards di (l_owner l) (receiver l) dc)).
       { apply add_lock_rewards_ok; auto. apply Hin; left; auto. }
-      destruct (IH _ _ _ _ _ _ Tp Cs Hin' Ok1 Co1 H) as (A & B & C). repeat split; auto.
+      destruct (IH _ _ _ _ _ _ Tp Cs On Hin' Ok1 Co1 H) as (A & B & C). repeat split; auto.
       intros a d. rewrite C. cbn [lsum]. rewrite add_lock_rewards_recv.
       * specialize (Ex d). cbn [amount_of] in Ex. destruct (receiver l =? a); lia.
-      * intros e0 He0 Eo. symmetry. apply (Ok e0 He0 l); [apply Hin; left; auto|congruence].
+      * intros e0 He0 Eo. assert (Hl : In l tbl) by (apply Hin; left; auto).
+        unfold owners_nonneg in On. rewrite Forall_forall in On. specialize (On l Hl).
+        destruct (Ok e0 He0) as [[Neg _]|[_ R]]; [lia|]. symmetry. apply (R l Hl). congruence.
 Qed.
 
 (* what distributeInternal credits to an address, in the model's terms *)
@@ -126,21 +140,34 @@ Definition gauge_credit (cfg : config) (thr : Z -> tval) (g : gauge) (ls : list 
   match coins_sub (g_coins g) (g_dist g) with
   | None => 0
   | Some remain =>
+      if negb (g_pool g =? 0) then
+        match nolock_coins (remain_epochs g) remain [] with
+        | Some total => if pool_addr (g_pool g) =? a then amount_of total d else 0
+        | None => 0
+        end
+      else
       if is_empty ls || is_empty remain || is_small_gauge cfg remain ||
          (sum_locks ls =? 0) || (2 ^ max_int_bits <=? sum_locks ls) then 0
       else lsum cfg thr (sum_locks ls * to_int64 (remain_epochs g)) remain ls a d
   end.
 
 Lemma distribute_internal_recv : forall cfg thr tbl g ls di cache w di' cache',
-  thr_positive thr -> consistent_receivers tbl -> (forall l, In l ls -> In l tbl) ->
+  thr_positive thr -> consistent_receivers tbl -> owners_nonneg tbl -> 0 <= g_pool g -> (forall l, In l ls -> In l tbl) ->
   di_ok tbl di -> cache_ok thr cache ->
   distribute_internal cfg thr g ls di cache = Ok (w, di', cache') ->
   di_ok tbl di' /\ cache_ok thr cache' /\
   forall a d, di_recv_sum di' a d = di_recv_sum di a d + gauge_credit cfg thr g ls a d.
 Proof.
-  intros cfg thr tbl g ls di cache w di' cache' Tp Cs Hin Ok Co H. unfold distribute_internal in H. unfold gauge_credit.
+  intros cfg thr tbl g ls di cache w di' cache' Tp Cs On Hpl Hin Ok Co H. unfold distribute_internal in H. unfold gauge_credit.
   destruct (coins_sub (g_coins g) (g_dist g)) as [remain|]; [|discriminate].
   destruct (remain_epochs g =? 0); [discriminate|].
+  destruct (negb (g_pool g =? 0)) eqn:Pl.
+  { apply negb_true_iff, Z.eqb_neq in Pl. assert (Pa : pool_addr (g_pool g) < 0) by (unfold pool_addr; lia).
+    destruct (nolock_coins (remain_epochs g) remain []) as [total|]; [|discriminate]. inversion H; subst; clear H.
+    destruct (is_empty total) eqn:E.
+    - destruct total; [|discriminate]. repeat split; auto. intros a d. cbn [amount_of]. destruct (pool_addr (g_pool g) =? a); lia.
+    - split; [apply add_pool_rewards_ok; auto|]. split; auto. intros a d. rewrite add_lock_rewards_recv; [reflexivity|].
+      intros e0 He0 Eo. destruct (Ok e0 He0) as [[_ R]|[Nn _]]; [congruence|lia]. }
   destruct (is_empty ls); cbn [orb]; [inversion H; subst; repeat split; auto; intros; lia|].
   destruct (is_empty remain); cbn [orb]; [inversion H; subst; repeat split; auto; intros; lia|].
   destruct (is_small_gauge cfg remain); cbn [orb]; [inversion H; subst; repeat split; auto; intros; lia|].
@@ -149,13 +176,13 @@ Proof.
   - destruct (locks_loop cfg thr (sum_locks ls * to_int64 (remain_epochs g)) remain ls di cache [])
       as [[[di1 c1] total]|e] eqn:LL; [|discriminate].
     inversion H; subst; clear H.
-    destruct (locks_loop_recv _ _ _ _ _ _ _ _ _ _ _ _ Tp Cs Hin Ok Co LL) as (A & B & C). repeat split; auto.
+    destruct (locks_loop_recv _ _ _ _ _ _ _ _ _ _ _ _ Tp Cs On Hin Ok Co LL) as (A & B & C). repeat split; auto.
 Qed.
 
 Lemma elig_incl : forall tbl g l, In l (elig tbl g) -> In l tbl.
 Proof.
   intros tbl g l H. assert (F : Forall (fun x => In x tbl) (elig tbl g)).
-  { unfold elig, qual_locks. destruct (is_empty (g_coins g)); [constructor|].
+  { unfold elig, qual_locks. destruct (negb (g_pool g =? 0)); [constructor|]. destruct (is_empty (g_coins g)); [constructor|].
     apply filter_Forall, locks_longer_Forall. apply Forall_forall; auto. }
   rewrite Forall_forall in F. auto.
 Qed.
@@ -164,19 +191,19 @@ Fixpoint gsum (cfg : config) (thr : Z -> tval) (tbl : list lock) (gs : list gaug
   match gs with [] => 0 | g :: r => gauge_credit cfg thr g (elig tbl g) a d + gsum cfg thr tbl r a d end.
 
 Lemma distribute_loop_recv : forall cfg thr tbl gs store lc di cache store' di',
-  thr_positive thr -> consistent_receivers tbl -> lc_ok tbl lc ->
-  Forall (fun g => cache_min_duration_ms < g_dur g) gs ->
+  thr_positive thr -> consistent_receivers tbl -> owners_nonneg tbl -> lc_ok tbl lc ->
+  Forall dur_ok gs ->
   di_ok tbl di -> cache_ok thr cache ->
   distribute_loop cfg thr tbl gs store lc di cache = Ok (store', di') ->
   forall a d, di_recv_sum di' a d = di_recv_sum di a d + gsum cfg thr tbl gs a d.
 Proof.
-  induction gs as [|g r IH]; intros store lc di cache store' di' Tp Cs Hlc Hd Ok Co H a d; cbn [distribute_loop] in H.
+  induction gs as [|g r IH]; intros store lc di cache store' di' Tp Cs On Hlc Hd Ok Co H a d; cbn [distribute_loop] in H.
   - inversion H; subst. cbn; lia.
   - destruct (base_locks tbl g lc) as [ls lc1] eqn:B. inversion Hd as [|? ? Hd1 Hd2]; subst.
     destruct (base_locks_spec _ _ _ _ _ Hlc Hd1 B) as [-> Hlc1].
     destruct (distribute_internal cfg thr g (elig tbl g) di cache) as [[[w di1] c1]|e] eqn:D; [|discriminate].
-    destruct (distribute_internal_recv _ _ _ _ _ _ _ _ _ _ Tp Cs (elig_incl tbl g) Ok Co D) as (A & B2 & C).
-    rewrite (IH _ _ _ _ _ _ Tp Cs Hlc1 Hd2 A B2 H a d). rewrite C. cbn [gsum]. lia.
+    destruct (distribute_internal_recv _ _ _ _ _ _ _ _ _ _ Tp Cs On (proj2 Hd1) (elig_incl tbl g) Ok Co D) as (A & B2 & C).
+    rewrite (IH _ _ _ _ _ _ Tp Cs On Hlc1 Hd2 A B2 H a d). rewrite C. cbn [gsum]. lia.
 Qed.
 
 Lemma do_sends_recv : forall b di b' a d, a <> MODULE -> do_sends b di = Some b' ->
@@ -194,18 +221,19 @@ Qed.
 (* one epoch end: every address other than the module account is credited the sum, over the gauges that take part,
    of the model's per-gauge credit *)
 Lemma epoch_credit_model : forall cfg thr s s', Inv s -> thr_positive thr -> consistent_receivers (s_locks s) ->
+  owners_nonneg (s_locks s) ->
   after_epoch_end cfg thr s = Ok s' ->
   exists acts, NoDup (map g_id acts) /\ (forall g, In g acts <-> takes_part s g) /\
     forall a d, a <> MODULE -> s_bank s' a d - s_bank s a d = gsum cfg thr (s_locks s) acts a d.
 Proof.
-  intros cfg thr s s' I Tp Cs H.
+  intros cfg thr s s' I Tp Cs On H.
   destruct (epoch_spec_plus _ _ _ _ I H) as (ups & acts & _ & _ & _ & _ & _ & _ & _ & _ & Nd & _ & Hacts & _ & _ & _ & _ & _ & _ & di & DL & DS).
   exists acts. split; auto. split; auto. intros a d Ha.
   rewrite (do_sends_recv _ _ _ a d Ha DS).
-  assert (Fd : Forall (fun g => cache_min_duration_ms < g_dur g) acts).
+  assert (Fd : Forall dur_ok acts).
   { apply Forall_forall. intros g Hi. pose proof (I_durs _ I) as Id. rewrite Forall_forall in Id. apply Id. apply Hacts; auto. }
   assert (Lc0 : lc_ok (s_locks s) []) by (intros x v Hv; discriminate).
   assert (Ok0 : di_ok (s_locks s) []) by (intros e []).
   assert (Co0 : cache_ok thr []) by (intros x v Hv; discriminate).
-  rewrite (distribute_loop_recv _ _ _ _ _ _ _ _ _ _ Tp Cs Lc0 Fd Ok0 Co0 DL a d). cbn [di_recv_sum]. lia.
+  rewrite (distribute_loop_recv _ _ _ _ _ _ _ _ _ _ Tp Cs On Lc0 Fd Ok0 Co0 DL a d). cbn [di_recv_sum]. lia.
 Qed.
